@@ -39,6 +39,12 @@ def templates(n_prog):
     T.append(lambda: I.SB(2, 1, -9))
     T.append(lambda: I.LBU(1, 2, -9))
     T.append(lambda: I.SH(1, 2, -2048))
+    # sub-word stores of register values with the sign bit of the stored part set (x1 / x2 hold such values in many of the
+    # initial register files), at both halves / all lanes of a word, next to words the programs also load and store
+    for (rs2, off) in ((1, 0), (2, 4), (1, 6), (2, 18), (1, 32), (2, 66)):
+        T.append(lambda rs2=rs2, off=off: I.SH(3, rs2, off))
+    for (rs2, off) in ((1, 5), (2, 7), (1, 16), (2, 35)):
+        T.append(lambda rs2=rs2, off=off: I.SB(3, rs2, off))
     T.append(lambda: I.LH(1, 3, 66))
     T.append(lambda: I.SH(3, 1, 34))
     for rs1 in (0, 1, 2):
